@@ -941,7 +941,7 @@ pub fn c04() -> RenderProp {
     }
 }
 
-const PLURAL_LOCALES: &[&str] = &["en", "fr", "ru", "pl", "ar", "cy", "ja", "he", "lt", "ga", "sl", "pt-PT", "de", "es", "it", "pt"];
+pub const PLURAL_LOCALES: &[&str] = &["en", "fr", "ru", "pl", "ar", "cy", "ja", "he", "lt", "ga", "sl", "pt-PT", "de", "es", "it", "pt"];
 
 pub fn c05() -> RenderProp {
     RenderProp {
